@@ -4,7 +4,9 @@ import (
 	"bufio"
 	"context"
 	"crypto/ecdsa"
+	"encoding/base64"
 	"encoding/binary"
+	"encoding/json"
 	"fmt"
 	"net"
 	"net/http"
@@ -13,8 +15,8 @@ import (
 
 	"github.com/aukilabs/go-tooling/pkg/logs"
 	"github.com/aukilabs/hagall-common/messages/hagallpb"
-	hcws "github.com/aukilabs/hagall-common/websocket"
 	"github.com/aukilabs/hagall-common/ncsclient"
+	hcws "github.com/aukilabs/hagall-common/websocket"
 	"github.com/aukilabs/hagall/featureflag"
 	"github.com/aukilabs/hagall/models"
 	"github.com/aukilabs/hagall/modules"
@@ -201,6 +203,10 @@ func (w *World) ConnectWith(name string, flags []string) *Client {
 	if w.Cfg.ClientID != "" {
 		req.Header.Set("posemesh-client-id", w.Cfg.ClientID)
 	}
+	// every connection presents a token (the world's handshake admits everybody);
+	// its app key - two of them, alternating - labels the connection's metrics and
+	// the sessions it creates
+	req.Header.Set("Authorization", "Bearer "+appToken(fmt.Sprintf("app-%d", c.Idx%2)))
 	rw := &fakeRW{c: srvConn{c.Pipe}, hdr: http.Header{}}
 	c.Thread = w.S.Spawn("conn:"+name, func() { w.serve(c, rw, req) })
 	return c
@@ -472,3 +478,13 @@ func (w *World) Finish() (left []Leftover) {
 }
 
 func (w *World) String() string { return fmt.Sprintf("world(%d clients)", len(w.Clients)) }
+
+// appToken: an unsigned-looking JWT carrying an app key (hagall reads the claim
+// without verifying; verification is the handshake's business).
+func appToken(appKey string) string {
+	enc := func(v any) string {
+		b, _ := json.Marshal(v)
+		return base64.RawURLEncoding.EncodeToString(b)
+	}
+	return enc(map[string]any{"alg": "HS256", "typ": "JWT"}) + "." + enc(map[string]any{"app_key": appKey, "iss": "HDS"}) + ".c2ln"
+}
